@@ -192,6 +192,14 @@ def run(ctx):
         ctx.case(("affine", R.tobytes(), k, verts.tobytes(), tris.tobytes()))
         ctx.hist("affine_det_sign", "neg" if det < 0 else "pos")
         ctx.hist("affine_det_magnitude", "1e%d" % int(np.floor(np.log10(abs(det * sc ** 3)))))
+        # correspondence with the Lean model over the integers: everything multiplied by 2^k is integral
+        scaled = np.asarray(v2) * 2.0 ** k
+        if np.all(scaled == np.rint(scaled)) and np.asarray(t2).shape == tris.shape:
+            reqs.append("mesh-affine %s %s %s %s" % (
+                core.ilist(int(x) for x in R.ravel()), core.ilist(int(x * 2 ** k) for x in t),
+                core.ilist(int(x) for x in verts.ravel()), core.ilist(int(x) for x in tris.ravel())))
+            meta.append(("affine", desc, "ok %s %s" % (core.ilist(int(x) for x in scaled.ravel()),
+                                                       core.ilist(int(x) for x in np.asarray(t2).ravel()))))
         if not np.array_equal(np.asarray(v2), verts @ Rs.T + t):
             ctx.oracle_fail("affine_transform_mesh does not move the vertices by the transform", desc)
             continue
